@@ -206,8 +206,8 @@ theorem lower_instanceID : lowerAscii "instanceID".toList = "instanceid".toList 
     are pairwise distinct: every node has at most one bind (and, with
     `binds_exactly_where_prescribed`, exactly one iff its row or type prescribes one).  For all
     row lists, all nestings. -/
-theorem one_bind_per_node (root : Str) (ks : List RK) (bs : List Bind)
-    (h : bindsOfRows root ks = .ok bs) : (bs.map (·.path)).Nodup := by
+theorem one_bind_per_node (root : Str) (ks : List RK) (metas : List Q) (bs : List Bind)
+    (h : bindsOfRows root ks metas = .ok bs) : (bs.map (·.path)).Nodup := by
   unfold bindsOfRows at h
   simp only at h
   split at h
@@ -230,12 +230,15 @@ theorem one_bind_per_node (root : Str) (ks : List RK) (bs : List Bind)
   refine (renderAll_paths _ _ _ _ hr).nodup ?_
   apply nodup_of_map (fun p => p.getLast?)
   rw [List.map_map]
-  show ((es ++ [instanceID root]).map (fun e => e.path.getLast?)).Nodup
-  rw [List.map_append, walk_lasts root ks [] es hw]
+  show ((es ++ (metas.map (metaElem root) ++ [instanceID root])).map (fun e => e.path.getLast?)).Nodup
+  have hm : (metas.map (metaElem root)).map (fun e => e.path.getLast?) = (metas.map (·.name)).map some := by
+    simp [List.map_map, metaElem, Function.comp_def]
+  rw [List.map_append, List.map_append, hm, walk_lasts root ks [] es hw, ← List.append_assoc, ← List.map_append]
+  show ((allNames ks metas).map some ++ [instanceID root].map (fun e => e.path.getLast?)).Nodup
   simp only [Bool.or_eq_true, Bool.not_eq_true', decide_eq_false_iff_not, not_or, Bool.not_eq_true,
     Decidable.not_not] at hnames
   obtain ⟨hnd, hres⟩ := hnames
-  have hn : (ks.flatMap rkNames).Nodup := nodup_of_map lowerAscii _ hnd
+  have hn : (allNames ks metas).Nodup := nodup_of_map lowerAscii _ hnd
   rw [List.nodup_append]
   refine ⟨List.Pairwise.map some (fun a b hab e => hab (Option.some.inj e)) hn, by simp, ?_⟩
   intro a ha b hb
@@ -245,7 +248,7 @@ theorem one_bind_per_node (root : Str) (ks : List RK) (bs : List Bind)
   intro e
   have e' : n = "instanceID".toList := Option.some.inj e
   subst e'
-  have : ((ks.flatMap rkNames).map lowerAscii).any (reservedNames root).contains = true := by
+  have : ((allNames ks metas).map lowerAscii).any (reservedNames root).contains = true := by
     rw [List.any_eq_true]
     refine ⟨lowerAscii "instanceID".toList, List.mem_map.mpr ⟨_, hn1, rfl⟩, ?_⟩
     rw [lower_instanceID]
@@ -431,8 +434,10 @@ theorem noninterference (root : Str) (tops : List Str) (st : List (Str × Bool))
   · have := renderAll_length _ _ _ _ hM'
     rw [sameShape_names r r' hs]; omega
 
-theorem bindsOfRows_ok (root : Str) (ks : List RK) (bs : List Bind) (h : bindsOfRows root ks = .ok bs) :
-    ∃ es, walk root [] ks = some es ∧ renderAll root (topNames 0 ks) (es ++ [instanceID root]) = some bs := by
+theorem bindsOfRows_ok (root : Str) (ks : List RK) (metas : List Q) (bs : List Bind)
+    (h : bindsOfRows root ks metas = .ok bs) :
+    ∃ es, walk root [] ks = some es ∧
+      renderAll root (topNames 0 ks) (es ++ (metas.map (metaElem root) ++ [instanceID root])) = some bs := by
   unfold bindsOfRows at h
   simp only at h
   split at h
@@ -453,16 +458,32 @@ theorem bindsOfRows_ok (root : Str) (ks : List RK) (bs : List Bind) (h : bindsOf
   subst h
   exact ⟨es, hw, hr⟩
 
+/-- **meta_binds_after_rows.**  The row loop has two outputs: the rows' elements and the meta block
+    (`audit` rows, then the generated `instanceID`).  The bind list is the binds of the rows followed by
+    the binds of the meta block, whose nodesets are `/root/meta/<name>`: an `audit` row's logic cells and
+    parameters reach `meta/audit` wherever the row stands in the sheet, and never any other node. -/
+theorem meta_binds_after_rows (root : Str) (ks : List RK) (metas : List Q) (bs : List Bind)
+    (h : bindsOfRows root ks metas = .ok bs) :
+    ∃ es a b, walk root [] ks = some es ∧ renderAll root (topNames 0 ks) es = some a ∧
+      renderAll root (topNames 0 ks) (metas.map (metaElem root) ++ [instanceID root]) = some b ∧
+      bs = a ++ b ∧
+      b.map (·.path) = ((metas.map (metaElem root) ++ [instanceID root]).filter
+        fun e => (elemBind e.q).isSome).map (·.path) := by
+  obtain ⟨es, hw, hr⟩ := bindsOfRows_ok root ks metas bs h
+  obtain ⟨a, b, ha, hb, rfl⟩ := renderAll_append _ _ es _ bs hr
+  exact ⟨es, a, b, hw, ha, hb, rfl, binds_exactly_where_prescribed _ _ _ b hb⟩
+
 /-- **noninterference** (whole form).  If a form converts, and still converts after the logic cells
     of row `j` were changed (row replaced by one of the same shape), every bind outside row `j`'s own
     segment is identical in both XForms — including the generated `meta/instanceID` bind. -/
 theorem noninterference_form (root : Str) (pre post : List RK) (r r' : RK) (hs : sameShape r r')
-    (bs bs' : List Bind)
-    (h : bindsOfRows root (pre ++ r :: post) = .ok bs) (h' : bindsOfRows root (pre ++ r' :: post) = .ok bs') :
+    (metas : List Q) (bs bs' : List Bind)
+    (h : bindsOfRows root (pre ++ r :: post) metas = .ok bs)
+    (h' : bindsOfRows root (pre ++ r' :: post) metas = .ok bs') :
     ∃ a m m' b, bs = a ++ m ++ b ∧ bs' = a ++ m' ++ b ∧
       m.length ≤ (rkNames r).length ∧ m'.length ≤ (rkNames r).length := by
-  obtain ⟨es, hw, hr⟩ := bindsOfRows_ok root _ bs h
-  obtain ⟨es', hw', hr'⟩ := bindsOfRows_ok root _ bs' h'
+  obtain ⟨es, hw, hr⟩ := bindsOfRows_ok root _ metas bs h
+  obtain ⟨es', hw', hr'⟩ := bindsOfRows_ok root _ metas bs' h'
   rw [← tops_unchanged pre post r r' hs] at hr'
   obtain ⟨x, y, hx, hy, rfl⟩ := renderAll_append _ _ es _ bs hr
   obtain ⟨x', y', hx', hy', rfl⟩ := renderAll_append _ _ es' _ bs' hr'
@@ -564,7 +585,7 @@ theorem noninterference_cells (root dl : Str) (key : List (Str × List Str)) (li
     (ks ks' : List RK) (bs bs' : List Bind)
     (hk : processRows dl key lists 2 .off (pre ++ c :: post) = .ok ks)
     (hk' : processRows dl key lists 2 .off (pre ++ c' :: post) = .ok ks')
-    (hb : bindsOfRows root ks = .ok bs) (hb' : bindsOfRows root ks' = .ok bs') :
+    (metas : List Q) (hb : bindsOfRows root ks metas = .ok bs) (hb' : bindsOfRows root ks' metas = .ok bs') :
     ∃ a m m' b r, bs = a ++ m ++ b ∧ bs' = a ++ m' ++ b ∧
       (∃ n tl tl2, rowRKs dl key lists n tl c = .ok ([r], tl2)) ∧
       m.length ≤ (rkNames r).length ∧ m'.length ≤ (rkNames r).length := by
@@ -577,7 +598,7 @@ theorem noninterference_cells (root dl : Str) (key : List (Str × List Str)) (li
   subst hks
   subst h2
   simp only [List.append_assoc, List.singleton_append] at hb hb'
-  obtain ⟨a, m, m', b, e1, e2, l1, l2⟩ := noninterference_form root kpre kpost r r' hs bs bs' hb hb'
+  obtain ⟨a, m, m', b, e1, e2, l1, l2⟩ := noninterference_form root kpre kpost r r' hs metas bs bs' hb hb'
   exact ⟨a, m, m', b, r, e1, e2, ⟨_, _, _, hc⟩, l1, l2⟩
 
 /-! ## parameter-derived data type of `range` -/
@@ -697,7 +718,7 @@ private def shown (o : Out) : List (Str × List (Str × Str)) :=
 /-- `one_bind_per_node`, `binds_exactly_where_prescribed`, `noninterference_form`: a form that converts
     (the `trigger` row `t` has no logic and gets no bind; `n` gets the table's `readonly` and its own
     `required`) -/
-example : shown (bindsOfRows (s "data") (exRows "${a} > 1")) =
+example : shown (bindsOfRows (s "data") (exRows "${a} > 1") []) =
     [(s "/data/a", [(s "type", s "int")]),
      (s "/data/g", [(s "relevant", s " /data/a  > 1")]),
      (s "/data/g/n", [(s "readonly", s "true()"), (s "type", s "string"), (s "required", s "false()")]),
@@ -705,7 +726,7 @@ example : shown (bindsOfRows (s "data") (exRows "${a} > 1")) =
   decide +kernel
 
 /-- … and the same form with the logic cell of row `g` changed: only `g`'s own bind differs -/
-example : shown (bindsOfRows (s "data") (exRows "1 = 1")) =
+example : shown (bindsOfRows (s "data") (exRows "1 = 1") []) =
     [(s "/data/a", [(s "type", s "int")]),
      (s "/data/g", [(s "relevant", s "1 = 1")]),
      (s "/data/g/n", [(s "readonly", s "true()"), (s "type", s "string"), (s "required", s "false()")]),
@@ -724,6 +745,19 @@ example : shown (formBinds (s "data") (s "default") []
     [(s "/data/q1", [(s "type", s "string"), (s "readonly", s "true()"),
         (s "jr:constraintMsg", s "jr:itext('/data/q1:jr:constraintMsg')")]),
      (s "/data/q2", [(s "type", s "int"), (s "foo", s "a b"), (s "relevant", s " /data/q1  = 'x'")]),
+     (s "/data/meta/instanceID", [(s "type", s "string"), (s "readonly", s "true()"), (s "jr:preload", s "uid")])] := by
+  decide +kernel
+
+/-- an `audit` row anywhere in the sheet reaches `meta/audit` (before `instanceID`) with the type table's
+    `binary`, its own logic cell and its parameters as `odk:` attributes -/
+example : shown (formBinds (s "data") (s "default") []
+    [s "type", s "name", s "parameters", s "relevant"]
+    [[(s "type", s "text"), (s "name", s "q1")],
+     [(s "type", s "audit"), (s "parameters", s "track-changes=true location-priority=balanced location-min-interval=10 location-max-age=60"),
+      (s "relevant", s "${q1} != ''")]]) =
+    [(s "/data/q1", [(s "type", s "string")]),
+     (s "/data/meta/audit", [(s "type", s "binary"), (s "relevant", s " /data/q1  != ''"), (s "odk:track-changes", s "true"),
+        (s "odk:location-max-age", s "60"), (s "odk:location-min-interval", s "10"), (s "odk:location-priority", s "balanced")]),
      (s "/data/meta/instanceID", [(s "type", s "string"), (s "readonly", s "true()"), (s "jr:preload", s "uid")])] := by
   decide +kernel
 
